@@ -12,6 +12,7 @@ from vf.refs import threshold_opt as RT
 
 CONSTRAINTS = list(RT.SIMPLE.keys()) + ["equalized_odds"]
 GRID_SIZES = [1, 2, 3, 5, 7, 10, 100, 1000]
+FINE_GRID_SIZES = [10 ** 5, 2 * 10 ** 5 + 1]   # group size x grid size beyond 1e5: grid points within 1e-5 (relative) of hull vertices
 
 
 class ScoreColumn(BaseEstimator):
@@ -133,6 +134,13 @@ def random_dataset(rng, family=None, kmax=5, nmax=40, max_levels=None, informati
             s = s + np.asarray(y) * step * (rng.random(n) < 0.7)
         else:
             s = s + np.asarray(y) * spread * rng.uniform(0.2, 1.0) * (rng.random(n) < 0.8)
+        if rng.random() < 0.35:
+            # one group whose scores are ANTI-predictive (with flip=True its best rules are 'score < t', possibly at the
+            # very thresholds another group uses with 'score > t')
+            a = int(rng.integers(0, k))
+            rows = [i for i in range(n) if gi[i] == a]
+            lo, hi = float(s.min()), float(s.max())
+            s[rows] = lo + hi - s[rows]
     if max_levels is not None:
         # limit the number of distinct scores per group (keeps the reference's pair enumeration small)
         s = np.asarray(s, dtype=float)
